@@ -315,47 +315,60 @@ func OSMDoc(r *gen.R, noise bool, o *osm.OSM) []byte {
 	return []byte(w.String())
 }
 
-// ChangeDoc renders an <osmChange> document. With perElement set every element gets its own
-// action block in document order nodes, ways, relations per action (the way the API's
-// changeset download interleaves blocks); otherwise one block per non-nil action.
-func ChangeDoc(r *gen.R, noise bool, c *osm.Change, perElement bool) []byte {
+// ChangeBlock is one action block of an osmChange document: Action is create, modify or
+// delete; O holds the block's elements (may be empty: an empty block).
+type ChangeBlock struct {
+	Action string
+	O      *osm.OSM
+}
+
+// ChangeBlocksDoc renders an <osmChange> document whose action blocks appear exactly in the
+// given order — repeated, interleaved and empty blocks included, which is the shape of the
+// API's changeset download (one block per element, in changeset order).
+func ChangeBlocksDoc(r *gen.R, noise bool, root *osm.Change, blocks []ChangeBlock) []byte {
 	w := &XW{R: r, Noise: noise}
 	w.prolog()
-	w.open("osmChange", rootAttrs(c.Version, c.Generator, c.Copyright, c.Attribution, c.License), false)
+	w.open("osmChange", rootAttrs(root.Version, root.Generator, root.Copyright, root.Attribution, root.License), false)
 	w.sep()
-	block := func(name string, o *osm.OSM) {
-		if o == nil {
-			return
+	for _, b := range blocks {
+		n := len(b.O.Nodes) + len(b.O.Ways) + len(b.O.Relations)
+		if n == 0 {
+			w.open(b.Action, nil, true)
+			continue
 		}
-		n := len(o.Nodes) + len(o.Ways) + len(o.Relations)
-		if !perElement || n == 0 {
-			w.open(name, nil, false)
-			w.sep()
-			w.osmBody(o)
-			w.close(name)
-			return
-		}
-		for _, x := range o.Nodes {
-			w.open(name, nil, false)
-			w.node(x)
-			w.close(name)
-		}
-		for _, x := range o.Ways {
-			w.open(name, nil, false)
-			w.way(x)
-			w.close(name)
-		}
-		for _, x := range o.Relations {
-			w.open(name, nil, false)
-			w.relation(x)
-			w.close(name)
-		}
+		w.open(b.Action, nil, false)
+		w.sep()
+		w.osmBody(b.O)
+		w.close(b.Action)
 	}
-	block("create", c.Create)
-	block("modify", c.Modify)
-	block("delete", c.Delete)
 	w.sb.WriteString("</osmChange>\n")
 	return []byte(w.String())
+}
+
+// ChangeOfBlocks is the value an osmChange document with these blocks stands for: per action
+// the elements of all its blocks in document order, per element kind; an action without any
+// block stays nil.
+func ChangeOfBlocks(root *osm.Change, blocks []ChangeBlock) *osm.Change {
+	c := *root
+	c.Create, c.Modify, c.Delete = nil, nil, nil
+	for _, b := range blocks {
+		var dst **osm.OSM
+		switch b.Action {
+		case "create":
+			dst = &c.Create
+		case "modify":
+			dst = &c.Modify
+		default:
+			dst = &c.Delete
+		}
+		if *dst == nil {
+			*dst = &osm.OSM{}
+		}
+		(*dst).Nodes = append((*dst).Nodes, b.O.Nodes...)
+		(*dst).Ways = append((*dst).Ways, b.O.Ways...)
+		(*dst).Relations = append((*dst).Relations, b.O.Relations...)
+	}
+	return &c
 }
 
 // ---------------------------------------------------------------------------------------
